@@ -83,13 +83,16 @@ def two_utterance_case(rng, idx):
     # second utterance: silence + the recording (longer than the first); one frame per call around the point
     # where as many frames have been searched as the first utterance had in total
     a2 = "silgf"
-    lead = 410 + (frames1 - 8) * 160
+    lead = 410 + (frames1 - 12) * 160
     s += ["start", "feed %s 0 %d i16 0 0" % (a2, lead)]
     off = lead
-    for k in range(16):
+    lvl = rng.choice([1, 2])
+    for k in range(24):
         s.append("feed %s %d 160 i16 0 0" % (a2, off))
         off += 160
-        s.append("json u2_%d 0 %d" % (k, rng.choice([1, 2])))
+        # the FIRST alignment-level request of this utterance comes exactly when as many frames have been
+        # searched as the first utterance had (the decoder's "nothing has changed" test looks at that count)
+        s.append("if %d json u2hit 0 %d" % (frames1, lvl))
     s += ["feed %s %d -1 i16 0 0" % (a2, off), "end", "json u2fin 0 1", "free"]
     return "two-utterances#%d" % idx, s
 
